@@ -56,8 +56,18 @@ def eval_sym(s, env, memo):
         if abs(dd) - ed <= 0:
             raise Unsupported("divisor may vanish")
         v = n / dd
-        e = (abs(n) * ed + abs(dd) * en) / (abs(dd) * (abs(dd) - ed)) + 1
-        r = (v, e)
+        e = (abs(n) * ed + abs(dd) * en) / (abs(dd) * (abs(dd) - ed))
+        # truncation toward zero: with the sign of the quotient known it is a one-sided rounding of width 1 (mid value -+ 1/2)
+        sg = _quot_sign(n - en, n + en, dd - ed, dd + ed)
+        if "__signs__" in memo:
+            # decisions of the enclosing cell (the point value must idealise the truncation the same way as the cell does)
+            sg = memo["__signs__"].get(s, 0)
+        if sg > 0:
+            r = (v - Fraction(1, 2), e + Fraction(1, 2))
+        elif sg < 0:
+            r = (v + Fraction(1, 2), e + Fraction(1, 2))
+        else:
+            r = (v, e + 1)
     elif op == "fptosi":
         z, ez = feval(ta[2], env, memo)
         # truncation toward zero of z (+- ez): within 1/2 of z -+ 1/2
@@ -71,6 +81,15 @@ def eval_sym(s, env, memo):
         raise Unsupported("operator %s" % op)
     memo[s] = r
     return r
+
+
+def _quot_sign(nlo, nhi, dlo, dhi):
+    """+1 / -1 when every quotient of a numerator in [nlo,nhi] by a divisor in [dlo,dhi] is >= 0 / <= 0, else 0"""
+    if dlo > 0:
+        return 1 if nlo >= 0 else (-1 if nhi <= 0 else 0)
+    if dhi < 0:
+        return 1 if nhi <= 0 else (-1 if nlo >= 0 else 0)
+    return 0
 
 
 FPREL = Fraction(1, 1 << 48)      # generous bound on the relative rounding error accumulated by a handful of binary64 operations
@@ -286,8 +305,16 @@ def cell_sym(s, xiv, memo):
         t2 = _mul(_mul(n, dq), _mul(inv, inv))
         D = (t1[0] - t2[1], t1[1] - t2[0])
         qmin = min(abs(q[0]), abs(q[1]))
-        E = (_absmax(n) * eq + _absmax(q) * en) / (qmin * (qmin - eq)) + 1
-        r = (V, D, E)
+        E = (_absmax(n) * eq + _absmax(q) * en) / (qmin * (qmin - eq))
+        sg = _quot_sign(n[0] - en, n[1] + en, q[0] - eq, q[1] + eq)
+        memo.setdefault("__signs__", {})[s] = sg
+        h = Fraction(1, 2)
+        if sg > 0:
+            r = ((V[0] - h, V[1] - h), D, E + h)
+        elif sg < 0:
+            r = ((V[0] + h, V[1] + h), D, E + h)
+        else:
+            r = (V, D, E + 1)
     elif op == "fptosi":
         z, dz, ez = fcell(ta[2], xiv, memo)
         if z[0] - ez >= 0:
@@ -373,16 +400,24 @@ def fcell(t, xiv, memo):
     return r
 
 
-def cell_bound(ret, a, b):
+def cell_bound(ret, a, b, ends=None):
     """for every integer x in [a,b]: actual(x) is within  v(x0) + D*(x-x0) +- E  with x0 the midpoint.
-    returns (x0, v(x0), D interval, E)"""
+    returns (x0, v(x0), D interval, E); if `ends` is a list, (v(a), v(b)) of the same idealisation are appended to it"""
     x0 = (a + b) // 2
-    v0, rho0 = ideal(ret, (x0,))
-    V, D, E = cell_key(ret.lin.key(), (Fraction(a), Fraction(b)), {})
-    return x0, v0, D, max(E, rho0)
+    m = {}
+    V, D, E = cell_key(ret.lin.key(), (Fraction(a), Fraction(b)), m)
+    sg = m.get("__signs__", {})
+    v0, rho0 = eval_key(ret.lin.key(), {"p0": Fraction(x0)}, {"__signs__": sg})
+    E = max(E, rho0)
+    if ends is not None:
+        va, ra = eval_key(ret.lin.key(), {"p0": Fraction(a)}, {"__signs__": sg})
+        vb, rb = eval_key(ret.lin.key(), {"p0": Fraction(b)}, {"__signs__": sg})
+        E = max(E, ra, rb)
+        ends.append((va, vb))
+    return x0, v0, D, E
 
 
-def prove_cells(V, run, truth, bound, clause, site, box=None, width=64, min_cells=100, extra_slack=Fraction(0), adapt=None, tag="", rng_acc=None):
+def prove_cells(V, run, truth, bound, clause, site, box=None, width=64, min_cells=100, extra_slack=Fraction(0), adapt=None, tag="", rng_acc=None, collect=None):
     """Certifying direction, generic: for every path of `run` and every cell [a,b] of its parameter box,
          |actual(x) - f(x)| <= |v(x0) - f(x0)| + max|D - f'| * |x - x0| + E
        must not exceed bound(a, b) - extra_slack.
@@ -405,7 +440,10 @@ def prove_cells(V, run, truth, bound, clause, site, box=None, width=64, min_cell
                 a = b + 1
                 continue
             try:
-                x0, v0, D, E = cell_bound(p.ret, a, b)
+                ends = [] if collect is not None else None
+                x0, v0, D, E = cell_bound(p.ret, a, b, ends)
+                if collect is not None:
+                    collect.append({"a": a, "b": b, "path": id(p), "va": ends[0][0], "vb": ends[0][1], "E": E, "D": D, "x0": x0, "v0": v0})
                 (f0l, f0h), (dl, dh) = truth(a, b, x0)
             except Unsupported as e:
                 V.inconc("%s [%s]: idealised expression not available on cell [%d,%d]: %s" % (run.name, run.ctx.config, a, b, e))
@@ -466,3 +504,61 @@ def triage_fails(V, run, fails, point_ok, clause, site, limit=40):
                 V.inconc("%s [%s]: '%s' not proved on cell [%d,%d] (error bound %s, allowed %.3f) and no violating argument in the cell" % (
                     run.name, run.ctx.config, clause, a, b, "%.3f" % err if err is not None else "n/a", bd))
     return reported
+
+
+def near_monotone(cells, consts, slack, exact=None):
+    """x <= y  =>  actual(x) <= actual(y) + slack (integers), from the cell records of prove_cells (collect=) and the constant
+    paths consts = [(lo, hi, value)]; exact = {argument: result} overrides single-argument cells.  For x in cell i on path p and y in cell j on path r:
+        actual(x) - actual(y) <= [v_p(x) + E_p] - [v_r(y) - E_r],   v_p(x) <= v_p(b_i) + s_p,   v_r(y) >= v_r(a_j) - s_r
+    with s = max(0, -min D) * (b - a) the possible decrease of the idealised value inside a cell; the point values v(a), v(b) are exact
+    rationals, so no chaining over intermediate cells is needed.  Returns (worst bound, where); the clause holds when worst < slack + 1."""
+    recs = []
+    exact = exact or {}
+    for c in cells:
+        if c["a"] == c["b"] and c["a"] in exact:
+            # single argument whose result is known exactly (constant propagation): no idealisation, no budget
+            if not any(r_[0] == c["a"] and r_[4] is None for r_ in recs):
+                recs.append((c["a"], c["b"], Fraction(exact[c["a"]]), Fraction(exact[c["a"]]), None))
+            continue
+        s_ = max(Fraction(0), -c["D"][0]) * (c["b"] - c["a"])
+        recs.append((c["a"], c["b"], c["vb"] + c["E"] + s_, c["va"] - c["E"] - s_, c))
+    for lo, hi, v in consts:
+        recs.append((lo, hi, Fraction(v), Fraction(v), None))
+    recs.sort(key=lambda r_: (r_[0], r_[1]))
+    worst = None
+    pm = None            # prefix maximum of the high value at the right end over the cells before the current one
+    # cells are disjoint or identical ranges (alternative paths over the same cell); group by range
+    groups = []
+    for r_ in recs:
+        if groups and groups[-1][0] == (r_[0], r_[1]):
+            groups[-1][1].append(r_)
+        else:
+            if groups and r_[0] <= groups[-1][0][1]:
+                raise Unsupported("cells overlap without being identical: [%d,%d] and [%d,%d]" % (groups[-1][0] + (r_[0], r_[1])))
+            groups.append(((r_[0], r_[1]), [r_]))
+    for (a, b), g in groups:
+        hb = max(r_[2] for r_ in g)
+        la = min(r_[3] for r_ in g)
+        # pairs in different cells
+        if pm is not None:
+            d = pm[0] - la
+            if worst is None or d > worst[0]:
+                worst = (d, "x in [%d,%d], y in [%d,%d]" % (pm[1][0], pm[1][1], a, b))
+        # pairs inside this cell (possibly on different alternative paths)
+        for p_ in g:
+            for r_ in g:
+                cp, cr = p_[4], r_[4]
+                if cp is None or cr is None:
+                    d = Fraction(0)
+                elif cp is cr:
+                    d = 2 * cp["E"] + max(Fraction(0), -cp["D"][0]) * (b - a)
+                else:
+                    # v_p(y) - v_r(y) over the cell, by the two first-order enclosures around the common midpoint
+                    dx = max(cp["x0"] - a, b - cp["x0"])
+                    dd = max(abs(cp["D"][1] - cr["D"][0]), abs(cp["D"][0] - cr["D"][1]))
+                    d = (cp["v0"] - cr["v0"]) + dd * dx + cp["E"] + cr["E"] + max(Fraction(0), -cp["D"][0]) * (b - a)
+                if worst is None or d > worst[0]:
+                    worst = (d, "x <= y both in [%d,%d]" % (a, b))
+        if pm is None or hb > pm[0]:
+            pm = (hb, (a, b))
+    return worst
